@@ -24,6 +24,43 @@ def extra_programs():
     yield ("builtin/Wrapper/R", lambda: Wrapper(h.R(r=1)))
 
 
+def compiled_programs():
+    """PDK-compiled (sample PDK, which maps the transistors and leaves the rest) and walked designs in which generic
+    primitives of different kinds carry EQUAL parameters: the two- and three-terminal resistor / capacitor / the diode and
+    the bipolar over one model name, next to transistors"""
+    import hdl21 as h
+    import hdl21.pdk.sample_pdk as sp
+    P = h.primitives
+
+    def mk(passive, order, how):
+        def b():
+            two, three, params = {"res": (P.PhysicalResistor, P.ThreeTerminalResistor, P.PhysicalResistorParams),
+                                  "cap": (P.PhysicalCapacitor, P.ThreeTerminalCapacitor, P.PhysicalCapacitorParams)}[passive]
+            rp = params(model="shared_model")
+            m = h.Module(name="Compiled")
+            m.a, m.b, m.c, m.vss = h.Signals(4)
+            parts = [lambda: m.add(two(rp)(p=m.a, n=m.b), name="x2"), lambda: m.add(three(rp)(p=m.b, n=m.c, b=m.vss), name="x3"),
+                     lambda: m.add(h.Mos(tp=h.MosType.NMOS)(d=m.c, g=m.b, s=m.vss, b=m.vss), name="mn"),
+                     lambda: m.add(h.Mos(tp=h.MosType.PMOS)(d=m.c, g=m.b, s=m.a, b=m.a), name="mp")]
+            for k in order:
+                parts[k]()
+            top = m
+            if how.endswith("deep"):
+                top = h.Module(name="CompiledTop")
+                top.i1 = m()
+                top.i2 = m()
+            if how.startswith("sample"):
+                sp.compile(top)
+            else:
+                h.HierarchyWalker().visit_elaboratables(top)
+            return top
+        return b
+    for passive in ("res", "cap"):
+        for order in ((0, 1, 2, 3), (1, 0, 3, 2), (2, 3, 1, 0)):
+            for how in ("sample", "sample-deep", "walker", "walker-deep"):
+                yield (f"compiled/{passive}/{order}/{how}", mk(passive, order, how))
+
+
 def edited_programs():
     """modules whose names were re-used for objects of another kind before export"""
     import hdl21 as h
@@ -179,10 +216,10 @@ def run(ctx):
     from contracts import c_export
     ctx.verify(c_export.names_engine(), c_export.VERIFY_NAMES)
     from props.c01 import concat_designs
-    cases = itertools.chain(design_family(ctx.tier, ctx.seed), concat_designs(), extra_programs(), edited_programs(), edited_after_export_programs(), faulted_programs(),
+    cases = itertools.chain(design_family(ctx.tier, ctx.seed), concat_designs(), extra_programs(), compiled_programs(), edited_programs(), edited_after_export_programs(), faulted_programs(),
                             adversarial_programs())
     ctx.run_bounded("wf_package(to_proto(design))", cases, check_pkg,
-                    rule=RULE + "; every concatenation of two or three pieces of one bus (C01's family, 285 designs); plus Series/MosStack/Wrapper over small parameter ranges; modules whose names were "
+                    rule=RULE + "; every concatenation of two or three pieces of one bus (C01's family, 285 designs); sample-PDK-compiled and walked designs holding two- and three-terminal passives of equal parameters (24); plus Series/MosStack/Wrapper over small parameter ranges; modules whose names were "
                          "re-used for another kind (16 pairs); modules edited after a first export (7 edits x 2 depths); the single-fault designs of C02 (a package returned for "
                          "one of them must still be well-formed); the adversarially named designs of C05",
                     bound="depth<=3, widths<=4 (8 thorough)", key_of=lambda c: c[0],
